@@ -486,7 +486,18 @@ def abstract_minmax(I, v, is_min, key):
     n = t.length()
     if ctx.decide(n == 0, "min/max of empty"):
         I.raise_exc(VALUE_ERR, "min()/max() arg is an empty sequence")
-    w = ctx.fresh_int("mm")
+    lj = getattr(ctx, "_loop_j", None)
+    sk = None
+    if lj is not None:
+        # inside an abstracted loop body the position of the extremal element is a function of the iteration:
+        # w = W(j) for a fresh function W (iteration skolem, see core.Ctx.sk_install)
+        if getattr(ctx.parent, "_loop_j", None) is not None:
+            raise Unsupported("min/max inside a nested abstracted loop")
+        I.sk_counter = getattr(I, "sk_counter", 0) + 1
+        sk = z3.Function("argm!%d" % I.sk_counter, z3.IntSort(), z3.IntSort())
+        w = sk(lj)
+    else:
+        w = ctx.fresh_int("mm")
     m = t.new_member(TRUE, w)
     res = m.elem
 
@@ -510,6 +521,12 @@ def abstract_minmax(I, v, is_min, key):
         finally:
             I.ctx.pure_depth -= 1
     t.all_facts.append((TRUE, bound, "minmax"))
+    if sk is not None:
+        e_ph = ctx.fresh_elem(t.etype, "ph")
+        i_ph = ctx.fresh_int("phi")
+        tmpl = bound(e_ph, i_ph)
+        I.skolems[sk.name()] = dict(W=sk, j=lj, binds=list(getattr(ctx, "_loop_binds", [])), term=t, tmpl=tmpl,
+                                    e_ph=[to_z3(x) for x in I.elem_parts(e_ph)], i_ph=i_ph)
     return res
 
 
@@ -764,8 +781,42 @@ def same_term_inner(I, t1, t2):
                     ok, why = same_term(I, a.term.inner, b.term.inner)
                     if ok:
                         continue
+                    if same_up_to_segment_order(I, a.term.inner, b.term.inner):
+                        continue
                 return same_by_extensionality(I, t1, t2)
     return True, None
+
+
+def same_up_to_segment_order(I, t1, t2):
+    """sorted(xs ++ ys) == sorted(ys ++ xs) (lemma sort_perm_append, lean/Lifting.lean): the segments of the two
+    concatenations are matched one to one in any order"""
+    s1 = merge_conc(segments(I, t1))
+    s2 = list(merge_conc(segments(I, t2)))
+    if len(s1) != len(s2) or len(s1) < 2 or len(s1) > 4:
+        return False
+    for a in s1:
+        hit = None
+        for k, b in enumerate(s2):
+            if a.kind != b.kind:
+                continue
+            if a.kind == "conc":
+                if len(a.items) != len(b.items):
+                    continue
+                if all(I.same_value(x, y)[0] for x, y in zip(a.items, b.items)):
+                    hit = k
+                    break
+            elif a.kind == "fm":
+                if same_fm(I, a.fm, b.fm)[0]:
+                    hit = k
+                    break
+            elif a.term is b.term or (isinstance(a.term, Atom) and isinstance(b.term, Atom)
+                                      and a.term.name == b.term.name):
+                hit = k
+                break
+        if hit is None:
+            return False
+        s2.pop(hit)
+    return True
 
 
 def src_same(a, b):
@@ -784,15 +835,19 @@ def src_same(a, b):
 
 def same_fm(I, f1, f2):
     """congruence rule for flatMap: equal sources and pointwise equal bodies"""
-    if not src_same(f1.src, f2.src):
-        return same_by_extensionality(I, f1, f2)
     ctx = I.ctx
+    aligned = src_same(f1.src, f2.src)
+    if not aligned:
+        # index-aligned sources (e.g. enumerate(xs) against range(len(xs))): concat_j body1(j) = concat_j body2(j)
+        # when both index spaces have the same length and the bodies agree at every index (lemma flatMap_congr_idx)
+        if not ctx.entails(f1.src.length() == f2.src.length()):
+            return same_by_extensionality(I, f1, f2)
     j = ctx.fresh_int("jj")
     gm = f1.src.any_member(j)
     inrange = gm.cond
     if f2.src is not f1.src:
         f2.src.any_member(j)
-        if f1.src.etype is not None:
+        if aligned and f1.src.etype is not None:
             ctx.assume(z3.Implies(inrange, I.elem_eq(f1.src.at(j), f2.src.at(j))))
     c1, c2 = f1.count(j), f2.count(j)
     goals = [c1 == c2]
@@ -852,8 +907,19 @@ def same_by_sorted_sets(I, t1, t2):
     return subset_of(I, t1, t2) and subset_of(I, t2, t1)
 
 
+def same_sorted_perm(I, t1, t2):
+    """sorted(X) == Y when Y is sorted and consists of the segments of X in some order (lemma sorted_perm_eq)"""
+    for x, y in ((t1, t2), (t2, t1)):
+        if isinstance(x, Sorted) and not isinstance(y, Sorted):
+            if same_up_to_segment_order(I, x.inner, y) and prove_sorted(I, y):
+                return True
+    return False
+
+
 def same_by_extensionality(I, t1, t2):
     """equal length and equal elements at an arbitrary index"""
+    if same_sorted_perm(I, t1, t2):
+        return True, None
     if same_by_sorted_sets(I, t1, t2):
         return True, None
     ctx = I.ctx
